@@ -134,9 +134,13 @@ def _coefficients(ck, order, M, sym_r):
     calls = enc.interp.calls["exp"]
     nbase = 2 if HAS_HALF[order] else 1
     per = 2 if HAS_HALF[order] else 1
-    assert len(calls) == nbase + per * M, (len(calls), nbase, per, M)
     nacc = len(set(ACC_OF[order]))
-    assert len(quots) == M * nacc * nm * 2, (len(quots), M, nacc, nm)
+    if len(calls) != nbase + per * M or len(quots) != M * nacc * nm * 2:
+        # the constructor no longer has the documented structure (exp of L dt, exp of L dt / 2, M contour points with
+        # one quotient per integrand): decided by the replay against exact phi-functions
+        ck.add(f"{tag}/structure", False, [], family=f"order{order}/constructor structure", replay=_coef_replay(order, M, None, 0),
+               meta={"exp_calls": len(calls), "expected": nbase + per * M, "quotients": len(quots)})
+        return
     pre = [r > 0] if sym_r else []
     fam = f"order{order}"
 
@@ -246,24 +250,28 @@ def _coef_replay(order, M, cname, k):
             v = model.get(n)
             return float(v) if isinstance(v, Fraction) else default
 
-        dt = g("dt", 0.5)
-        lam = complex(g(f"lam_0_{k}_re", -0.7), g(f"lam_0_{k}_im", 1.3))
         r = g("r", 1.0)
-        if dt == 0:
-            dt = 0.5
-        e = CLS[order](dt, jnp.asarray([[lam, lam]]), ex.nonlin_fun.ZeroNonlinearFun(1, 4), num_circle_points=M, circle_radius=r)
-        true = _true_coefs(order, lam * dt, dt)
-        worst = None
-        names = [cname] if cname else COEFS[order] + ["_exp_term"] + (["_half_exp_term"] if HAS_HALF[order] else [])
-        for n in names:
-            got = complex(np.asarray(getattr(e, n))[0, 0])
-            exp = true[n]
-            err = abs(got - exp) / (1e-30 + max(abs(exp), 1e-3))
-            if worst is None or err > worst[0]:
-                worst = (err, n, got, exp)
-        bad = worst[0] > 1e-6
-        return {"reproduced": bool(bad), "detail": f"ETDRK{order} M={M} dt={dt} lambda={lam}: stored {worst[1]} = {worst[2]}, exact phi-combination {worst[3]} (rel err {worst[0]:.3g})",
-                "inputs": {"dt": dt, "lambda": [lam.real, lam.imag], "r": r}}
+        # the model's point first; under the Ackermann abstraction a model need not be a concrete witness, so a
+        # fixed list of stress points (large |Im z|, stiff, zero, left half plane) is tried next; only an input
+        # that reproduces on the real constructor is reported
+        points = [(g("dt", 0.5) or 0.5, complex(g(f"lam_0_{k}_re", -0.7), g(f"lam_0_{k}_im", 1.3))), (1.0, 0.3 + 9.0j), (1.0, -2.0 - 7.5j), (0.5, -0.7 + 1.3j), (0.1, 0.0 + 0.0j), (1.0, -50.0 + 0.0j), (0.25, 0.0 + 20.0j)]
+        last = None
+        for dt, lam in points:
+            e = CLS[order](dt, jnp.asarray([[lam, lam]]), ex.nonlin_fun.ZeroNonlinearFun(1, 4), num_circle_points=M, circle_radius=r)
+            true = _true_coefs(order, lam * dt, dt)
+            worst = None
+            names = [cname] if cname else COEFS[order] + ["_exp_term"] + (["_half_exp_term"] if HAS_HALF[order] else [])
+            for n in names:
+                got = complex(np.asarray(getattr(e, n))[0, 0])
+                exp = true[n]
+                err = abs(got - exp) / (1e-30 + max(abs(exp), 1e-3))
+                if worst is None or err > worst[0]:
+                    worst = (err, n, got, exp)
+            last = {"reproduced": bool(worst[0] > 1e-6), "detail": f"ETDRK{order} M={M} dt={dt} lambda={lam}: stored {worst[1]} = {worst[2]}, exact phi-combination {worst[3]} (rel err {worst[0]:.3g})",
+                    "inputs": {"dt": dt, "lambda": [lam.real, lam.imag], "r": r}}
+            if last["reproduced"]:
+                return last
+        return last
 
     return replay
 
